@@ -7,6 +7,7 @@ MCNext ==
   \/ \E d \in Descs : Edit(d) /\ last' = <<"Edit", d>>
   \/ \E f \in BOOLEAN : Render(f) /\ last' = <<"Render", f>>
   \/ RenderPatch /\ last' = <<"RenderPatch">>
+  \/ NewCmd /\ last' = <<"New">>
   \/ \E d \in ExportDescs, ow \in BOOLEAN : Export(d, ow) /\ last' = <<"Export", d, ow>>
 MCSpec == MCInit /\ [][MCNext]_<<pvars, last>>
 (* an unforced render never changes sources that exist (stated on the command just issued) *)
@@ -15,4 +16,6 @@ UnforcedRenderKeeps == [][(last'[1] = "Render" /\ ~last'[2] /\ tree # 0) => tree
 SecondInitIsInert == [][(last'[1] = "Init" /\ cfg # 0) => UNCHANGED pvars]_<<pvars, last>>
 (* an export without overwrite never touches an existing project *)
 PlainExportKeeps == [][(last'[1] = "Export" /\ ~last'[3] /\ cfg # 0) => UNCHANGED pvars]_<<pvars, last>>
+(* `naunet new` never touches a directory that holds a project *)
+NewOnlyIntoEmpty == [][(last'[1] = "New" /\ cfg # 0) => UNCHANGED pvars]_<<pvars, last>>
 =============================================================================
